@@ -1,9 +1,217 @@
-(* C05 — property theorems only (single-threaded ring = bounded byte FIFO). *)
-From Coq Require Import ZArith List Bool.
-From Zix Require Import RingSpec RingModel.
+(* C05 — "Ring is an all-or-nothing bounded byte FIFO with atomic transactions".
+   Property theorems only.  The model (RingModel.v) follows /repo/src/ring.c used from one thread;
+   the spec (RingSpec.v) is a byte queue `sq` with a capacity, plus the open transaction.
+   All statements are for every ring size 1 <= s <= 2^31, every history, every byte value. *)
+From Coq Require Import ZArith List Bool Lia.
+From Zix Require Import RingSpec RingModel RingProofsNpot RingProofsBase RingProofs RingProofsSim
+  RingProofsHist RingProofsTx RingProofsFifo.
 Import ListNotations.
 Local Open Scope Z_scope.
 
-Theorem ring_reset_heads : forall rg, read_head (ring_reset rg) = 0 /\ write_head (ring_reset rg) = 0.
-Proof. intros rg. split; reflexivity. Qed.
-Print Assumptions ring_reset_heads.
+(* ------------------------------------------------------------------ capacity *)
+
+(* the bit-smearing code returns the least power of two >= s *)
+Theorem npot_correct :
+  forall s, 1 <= s <= 2 ^ 31 ->
+    (exists k, 0 <= k /\ next_power_of_two s = 2 ^ k) /\
+    s <= next_power_of_two s /\
+    forall j, 0 <= j -> s <= 2 ^ j -> next_power_of_two s <= 2 ^ j.
+Proof. exact npot_correct_lemma. Qed.
+Print Assumptions npot_correct.
+
+(* observation, not a violation: sizes 0 and > 2^31 are outside the property; the code computes
+   size 0 for them *)
+Theorem npot_outside :
+  next_power_of_two 0 = 0 /\ forall s, 2 ^ 31 < s < 2 ^ 32 -> next_power_of_two s = 0.
+Proof. exact npot_outside_lemma. Qed.
+Print Assumptions npot_outside.
+
+(* capacity of a new ring = (least power of two >= s) - 1; a new ring is empty *)
+Theorem ring_capacity_new :
+  forall s junk, 1 <= s <= 2 ^ 31 ->
+    ring_capacity (ring_new s junk) = next_power_of_two s - 1 /\
+    ring_capacity (ring_new s junk) = spec_capacity s /\
+    is_least_pow2_ge (ring_capacity (ring_new s junk) + 1) s /\
+    abs (ring_new s junk) = [] /\ inv (ring_new s junk).
+Proof.
+  intros s junk Hs. pose proof (ring_new_capacity s junk Hs) as C.
+  split; [rewrite C; symmetry; now apply npot_spec_capacity|].
+  split; [exact C|]. split; [rewrite C; now apply spec_capacity_least|].
+  split; [now apply ring_new_abs|now apply ring_new_inv].
+Qed.
+Print Assumptions ring_capacity_new.
+
+(* ------------------------------------------------------------------ refinement *)
+
+(* Every history the queue spec defines (i.e. every history that does not amend/commit without an
+   open transaction) makes the ring return, call by call, exactly what the queue returns — return
+   values and delivered bytes — and leaves it holding exactly the queue's bytes, with the space
+   queries agreeing. *)
+Theorem ring_refines_queue :
+  forall s junk h s' outs, 1 <= s <= 2 ^ 31 ->
+    spec_run (spec_capacity s) spec_init h = Some (s', outs) ->
+    exists st',
+      ring_run (ring_init s junk) h = (st', outs) /\
+      abs (fst st') = sq s' /\
+      ring_read_space (fst st') = len (sq s') /\
+      ring_write_space (fst st') = spec_capacity s - len (sq s') /\
+      ring_capacity (fst st') = spec_capacity s.
+Proof.
+  intros s junk h s' outs Hs Hrun.
+  destruct (R_run _ h _ _ _ _ (R_init s junk Hs) Hrun) as (st' & Eq & HR).
+  exists st'. split; [exact Eq|]. destruct st' as [rg t].
+  pose proof (R_free _ _ _ _ HR) as Hf. destruct HR as (Hi & _ & Hc & Ha & _). cbn [fst snd] in *.
+  split; [exact Ha|]. split; [rewrite <- Ha; symmetry; now apply abs_len|].
+  split; [now rewrite Hf|now rewrite Hc].
+Qed.
+Print Assumptions ring_refines_queue.
+
+(* One call from ANY state related to a queue state (the induction step of the above). *)
+Theorem ring_step_refines :
+  forall cap st s o s' out,
+    R cap st s -> spec_step cap s o = Some (s', out) ->
+    exists st', ring_step st o = (st', out) /\ R cap st' s'.
+Proof. exact R_step. Qed.
+Print Assumptions ring_step_refines.
+
+(* All or nothing, "nothing" part: a request that does not fit returns 0 (NO_MEM for amend) and
+   leaves the ENTIRE state — heads, masks, every buffer byte, the caller's transaction — equal. *)
+Theorem ring_refused_unchanged :
+  forall rg, inv rg ->
+    (forall src, ring_write_space rg < len src -> ring_write rg src = (rg, 0)) /\
+    (forall n, ring_read_space rg < n ->
+       ring_read rg n = (rg, (0, [])) /\ ring_peek rg n = (0, []) /\ ring_skip rg n = (rg, 0)) /\
+    (forall t src, 0 <= tx_write_head t < size rg ->
+       write_space_internal rg (tx_read_head t) (tx_write_head t) < len src ->
+       ring_amend_write rg t src = (rg, t, ST_NO_MEM)).
+Proof. exact refused_unchanged. Qed.
+Print Assumptions ring_refused_unchanged.
+
+(* All or nothing, "all" part: a request that fits transfers exactly the requested bytes:
+   write appends them at the back; read / skip remove exactly n from the front; peek removes none. *)
+Theorem ring_served_exactly :
+  forall rg, inv rg ->
+    (forall src, len src <= ring_write_space rg ->
+       exists rg', ring_write rg src = (rg', len src) /\ inv rg' /\ abs rg' = abs rg ++ src) /\
+    (forall n, 0 <= n <= ring_read_space rg ->
+       (exists rg', ring_read rg n = (rg', (n, ztake n (abs rg))) /\ inv rg' /\
+                    abs rg' = zdrop n (abs rg)) /\
+       ring_peek rg n = (n, ztake n (abs rg)) /\
+       (exists rg', ring_skip rg n = (rg', n) /\ inv rg' /\ abs rg' = zdrop n (abs rg))).
+Proof. exact served. Qed.
+Print Assumptions ring_served_exactly.
+
+(* ------------------------------------------------------------------ space *)
+
+(* read_space + write_space = capacity after EVERY history (even ones that misuse the transaction
+   API or pass negative sizes), and the structural invariant holds *)
+Theorem ring_space_sum :
+  forall s junk h, 1 <= s <= 2 ^ 31 ->
+    let rg := fst (fst (ring_run (ring_init s junk) h)) in
+    inv rg /\
+    ring_read_space rg + ring_write_space rg = ring_capacity rg /\
+    ring_capacity rg = spec_capacity s.
+Proof.
+  intros s junk h Hs rg.
+  pose proof (run_minv h _ (init_minv s junk Hs)) as [Hi _]. fold rg in Hi.
+  split; [exact Hi|]. split; [now apply space_sum_lemma|].
+  rewrite capacity_spec by exact Hi.
+  assert (Hsz : forall h st, size (fst (fst (ring_run st h))) = size (fst st)).
+  { clear. induction h as [|o h IH]; intros st; cbn [ring_run]; [reflexivity|].
+    assert (S1 : size (fst (fst (ring_step st o))) = size (fst st)).
+    { destruct st as [rg t]. destruct o as [src|n|n|n| | |src| ]; cbn [ring_step fst].
+      - pose proof (write_frame rg src) as [_ F]. destruct (ring_write rg src). exact F.
+      - unfold ring_read. destruct (peek_internal rg (read_head rg) (write_head rg) n).
+        destruct (z =? 0); reflexivity.
+      - reflexivity.
+      - unfold ring_skip. destruct (read_space_internal rg (read_head rg) (write_head rg) <? n);
+          reflexivity.
+      - reflexivity.
+      - reflexivity.
+      - pose proof (amend_size rg t src) as F. destruct (ring_amend_write rg t src) as [[? ?] ?].
+        exact F.
+      - reflexivity. }
+    destruct (ring_step st o) as [st1 out]. specialize (IH st1).
+    destruct (ring_run st1 h) as [st2 outs]. cbn [fst] in *. congruence. }
+  unfold rg. rewrite Hsz. cbn [ring_init fst ring_new size].
+  now apply npot_spec_capacity.
+Qed.
+Print Assumptions ring_space_sum.
+
+(* ------------------------------------------------------------------ transactions *)
+
+(* begin_write; amend_write b1; ...; amend_write bk; [commit_write]  on any ring state:
+   - the statuses are exactly: NO_MEM iff (bytes accepted so far in this transaction) + |bi| exceeds
+     the write space the ring had at begin_write (the code tests the transaction's own heads), and a
+     refused part changes nothing;
+   - before commit nothing is visible: stored bytes, both heads, read and write space unchanged —
+     so an abandoned transaction leaves no trace;
+   - after commit the accepted bytes appear contiguously, and the ring is where a single
+     ring_write of their concatenation puts it (same stored bytes, same heads). *)
+Theorem ring_tx_atomic :
+  forall rg parts, inv rg ->
+    let room := ring_write_space rg in
+    let acc := amend_accepted room 0 parts in
+    exists rg1 t1,
+      amend_all rg (ring_begin_write rg) parts = (rg1, t1, amend_statuses room 0 parts) /\
+      inv rg1 /\ abs rg1 = abs rg /\ read_head rg1 = read_head rg /\ write_head rg1 = write_head rg /\
+      ring_read_space rg1 = ring_read_space rg /\ ring_write_space rg1 = ring_write_space rg /\
+      let rg2 := fst (ring_commit_write rg1 t1) in
+      inv rg2 /\ abs rg2 = abs rg ++ acc /\
+      exists rgw, ring_write rg acc = (rgw, len acc) /\ abs rgw = abs rg2 /\
+                  read_head rgw = read_head rg2 /\ write_head rgw = write_head rg2 /\
+                  size rgw = size rg2.
+Proof. intros rg parts H. exact (tx_lemma rg parts H). Qed.
+Print Assumptions ring_tx_atomic.
+
+(* when everything fits: all SUCCESS and commit == write (b1 ++ ... ++ bk) *)
+Corollary ring_tx_all_fit :
+  forall rg parts, inv rg -> len (concat parts) <= ring_write_space rg ->
+    amend_statuses (ring_write_space rg) 0 parts = map (fun _ => ST_SUCCESS) parts /\
+    amend_accepted (ring_write_space rg) 0 parts = concat parts.
+Proof.
+  intros rg parts _ H. split; [apply amend_statuses_all|apply amend_accepted_all]; exact H.
+Qed.
+Print Assumptions ring_tx_all_fit.
+
+(* ------------------------------------------------------------------ peek, reset, order *)
+
+Theorem ring_peek_pure :
+  forall rg t n, inv rg -> 0 <= n ->
+    ring_peek rg n = snd (ring_read rg n) /\ fst (ring_step (rg, t) (OPeek n)) = (rg, t).
+Proof. intros rg t n H Hn. split; [now apply peek_pure|reflexivity]. Qed.
+Print Assumptions ring_peek_pure.
+
+Theorem ring_reset_empty :
+  forall rg, inv rg ->
+    inv (ring_reset rg) /\ abs (ring_reset rg) = [] /\ ring_read_space (ring_reset rg) = 0 /\
+    ring_write_space (ring_reset rg) = ring_capacity rg.
+Proof. exact reset_empty. Qed.
+Print Assumptions ring_reset_empty.
+
+(* FIFO order over whole histories (no reset; skip left out so that every byte that leaves is
+   seen): the bytes delivered by the reads, in call order, followed by the bytes still stored,
+   are exactly the bytes accepted (served writes, committed transactions), in call order. *)
+Theorem ring_fifo :
+  forall s junk h s' outs, 1 <= s <= 2 ^ 31 ->
+    spec_run (spec_capacity s) spec_init h = Some (s', outs) ->
+    existsb is_reset h = false -> existsb is_skip h = false ->
+    exists st', ring_run (ring_init s junk) h = (st', outs) /\
+      run_in (spec_capacity s) spec_init h = read_data h outs ++ abs (fst st').
+Proof. exact fifo_lemma. Qed.
+Print Assumptions ring_fifo.
+
+(* ------------------------------------------------------------------ non-vacuity *)
+
+(* a history on a ring of size 5 (capacity 7) that wraps, fails a write, runs a transaction with a
+   refused part, and abandons another: the spec defines it, so the theorems apply to it *)
+Example history_example :
+  let h := [OWrite [1;2;3;4;5]; ORead 4; OWrite [6;7;8;9;10]; OWrite [11;12;13];
+            OBegin; OAmend [13]; OAmend [14]; OCommit; OPeek 2; OBegin; OAmend []; ORead 8; OSkip 1] in
+  exists s' outs, spec_run (spec_capacity 5) spec_init h = Some (s', outs) /\
+    ring_run (ring_init 5 (fun _ => 165)) h = (fst (ring_run (ring_init 5 (fun _ => 165)) h), outs) /\
+    sq s' = [6;7;8;9;10;13].
+Proof. vm_compute. eexists. eexists. split; [reflexivity|]. split; reflexivity. Qed.
+
+Example inv_example : inv (ring_new 100 (fun _ => 0)) /\ ring_capacity (ring_new 100 (fun _ => 0)) = 127.
+Proof. split; [apply ring_new_inv; lia|reflexivity]. Qed.
